@@ -35,6 +35,14 @@ class Splice:
     def render(self, c):
         return repr(self)
 
+    def __eq__(self, other):
+        # "is the value equal to one of the earlier elements?" -- unknown: both answers are explored
+        if isinstance(other, Splice):
+            return other is self
+        return ctx().choose(2, "equals-an-earlier-element") == 0
+
+    __hash__ = object.__hash__
+
 
 class MatchStub:
     def __init__(self, ident: str):
